@@ -873,6 +873,14 @@ class Engine:
                                 raise Unsupported(f"yield of {v2.kind!r} into generator of {acc.elem!r}")
                             outs.append(Outcome("normal", s4.bind("_yield", ListV(acc.elem, z3.Concat(acc.t, z3.Unit(box(v2, acc.elem)))))))
                         continue
+                    if isinstance(v1, TupleV) and any(isinstance(x, UnionV) for x in v1.items):
+                        # a tuple whose components are unions: one outcome per feasible combination of alternatives
+                        for s4, alts in self.split_all(s3, list(v1.items)):
+                            v2 = TupleV(list(alts), v1.is_list)
+                            if not fits(v2, acc.elem):
+                                raise Unsupported(f"yield of {v2.kind!r} into generator of {acc.elem!r}")
+                            outs.append(Outcome("normal", s4.bind("_yield", ListV(acc.elem, z3.Concat(acc.t, z3.Unit(box(v2, acc.elem)))))))
+                        continue
                     if not fits(v1, acc.elem):
                         raise Unsupported(f"yield of {v1.kind!r} into generator of {acc.elem!r}")
                     outs.append(Outcome("normal", s3.bind("_yield", ListV(acc.elem, z3.Concat(acc.t, z3.Unit(box(v1, acc.elem)))))))
